@@ -31,6 +31,7 @@ extern int fw_hook_rs_log;
 extern double fw_phys_pos[8];
 extern int fw_hook_relay_log;
 extern int fw_hook_mqtt_log;
+extern int fw_hook_input_log;
 extern int fw_verify_oracle;
 extern unsigned long long fw_verify_len;
 extern uint32_t fw_verify_hfnv, fw_verify_sfnv;
